@@ -358,17 +358,15 @@ class PathRules:
                     c = norm(tr.operand(t.cond))
                     if c[0] == "field" and c[1][0] == "bin" and c[1][3] == ("int", 1) and "u64" in repr(tr.body.local_ty(t.cond.place.local) if t.cond.place else ""):
                         incs.append((cb, blk.idx, t.line))
-        # simpler: count `+= 1` on u64 locals/captures
+        # `+= 1` on a u64 (directly or through a captured &mut): the overflow assert names the constant 1_u64
         incs = []
         for cb in self.inter.code_bodies(b):
             for blk in cb.blocks:
                 if blk.cleanup:
                     continue
-                for st in blk.stmts:
-                    if st.kind == "assign" and st.rv.kind == "bin" and st.rv.op == "AddWithOverflow":
-                        o = st.rv.ops[1]
-                        if o.const_int() == 1 and cb.local_ty(st.rv.ops[0].place.local if st.rv.ops[0].place else 0) == "u64":
-                            incs.append((cb, blk.idx, st.line))
+                t = blk.term
+                if t.kind == "assert" and "Overflow(Add" in t.j["msg"] and "1_u64" in t.j["msg"]:
+                    incs.append((cb, blk.idx, t.line))
         n += 1
         rep.ob(rule, b.id, "copy_dir: exactly one counter increment site", len(incs) == 1, "%d `+= 1` site(s) on a u64" % len(incs), b.span)
         for cb, bb, line in incs:
@@ -395,15 +393,46 @@ class PathRules:
             rep.ob(rule, b.id, "copy_dir: increment after the item was copied", after,
                    "every path to the increment passes a successful child create_dir/copy_file" if after else
                    "some path reaches the increment without a successful copy of the item", line)
-        # returned value is the counter
-        cases = self.inter.ret_cases(b)
+        # returned value is the counter: the local returned in Ok(..) is the one the incrementing closure borrows mutably
         okret = False
-        for ct, _, _ in cases:
-            if self.inter.case_polarity(ct) == "ok":
-                v = norm(ct[3][0][1])
-                txt = repr(v)
-                if "AddWithOverflow" in txt or "files_copied" in txt or v[0] in ("phi", "okval", "field"):
+        outer = b
+        tr0 = get_tracer(self.facts, outer)
+        ret_locals = set()
+        for blk in outer.blocks:
+            if blk.cleanup:
+                continue
+            for st in blk.stmts:
+                if st.kind == "assign" and st.lhs.local == 0 and st.rv.kind == "agg" and st.rv.agg.get("variant") == "Ok" and st.rv.ops:
+                    o = st.rv.ops[0]
+                    if o.place is not None:
+                        # follow one copy
+                        l = o.place.local
+                        ret_locals.add(l)
+                        for kind, bb2, idx2 in tr0.defs.get(l, []):
+                            if kind == "assign":
+                                rv = outer.blocks[bb2].stmts[idx2].rv
+                                if rv.kind == "use" and rv.ops[0].place is not None:
+                                    ret_locals.add(rv.ops[0].place.local)
+        borrowed = set()
+        for blk in outer.blocks:
+            if blk.cleanup:
+                continue
+            for st in blk.stmts:
+                if st.kind == "assign" and st.rv.kind == "ref" and st.rv.mut and st.rv.place.is_local():
+                    borrowed.add(st.rv.place.local)
+        inc_in_closure = any(cb.kind == "Closure" for cb, _, _ in incs)
+        if inc_in_closure:
+            okret = bool(ret_locals & borrowed)
+        else:
+            cases = self.inter.ret_cases(b)
+            for ct, _, _ in cases:
+                if self.inter.case_polarity(ct) == "ok" and "AddWithOverflow" in repr(norm(ct)):
                     okret = True
+            # async form: the counter lives inside the async block and is its Ok payload
+            for cb, bb, line in incs:
+                for ct, _, _ in self.inter.ret_cases(cb):
+                    if self.inter.case_polarity(ct) == "ok" and "AddWithOverflow" in repr(norm(ct)):
+                        okret = True
         n += 1
         rep.ob(rule, b.id, "copy_dir: returns the counter", okret, "Ok payload derives from the incremented counter", b.span)
         return n
